@@ -15,9 +15,10 @@ DATA_PALETTE = [None, 7, 'str', {'a': 1}, [], [7], ['ev'], ['ev', 1], ['connect'
                 [['ev']], [None], ['ev', {'_placeholder': True, 'num': 0}], {'_placeholder': True, 'num': 0}]
 PH0 = {'_placeholder': True, 'num': 0}
 # (id kind, payload, declared attachment count, binary frames that follow)
+BAD_INDEX = ['ev', {'_placeholder': True, 'num': 5}]
 COMBOS = [(None, None, 0, 0), (None, ['ev', 1], 0, 0), ('sym', ['ev', 1], 0, 0), ('big', ['ev'], 0, 0), ('sym', [7], 0, 0),
           (None, 'str', 0, 0), (None, {'a': 1}, 0, 0), ('sym', [], 0, 0), (None, ['ev', PH0], 1, 1),
-          ('sym', ['ev', {'_placeholder': True, 'num': 5}], 1, 1), (None, ['ev', PH0], 2, 1), (None, ['connect'], 0, 0),
+          ('sym', BAD_INDEX, 1, 1), (None, ['ev', PH0], 2, 1), (None, ['connect'], 0, 0),
           (None, ['disconnect', 'x'], 0, 0), (None, [['ev']], 0, 0), ('sym', PH0, 1, 2)]
 SMALL_COMBOS = [COMBOS[i] for i in (2, 4, 8, 10)]
 MALFORMED = ['x', '2', '9', '51-', '2/a', '3', '0/zz,', '4"no"', '2[', '-1', '61-/a,3']
@@ -98,9 +99,13 @@ def h_flow(t, part):
             hostile_undecodable += 1
             w.recv('e0', MALFORMED[t.choice(len(MALFORMED))])
         new_calls = calls[ncalls:]
-        bad = [c for c in new_calls if c[1] in (b1, b2)]
+        own = {w.sid('e0', n) for n in ('/', '/a')} - {None}
+        bad = [c for c in new_calls if c[1] not in own and not (c[0] == 'disconnect' and c[1] == off_sid)]
         if bad:
-            return Fail('hostile:handler-ran-for-bystander', repr(bad))
+            return Fail('hostile:handler-ran-for-%s' % ('bystander' if [c for c in bad if c[1] in (b1, b2)] else 'nobody'),
+                        'the offender holds %r; handlers ran %r' % (sorted(own), bad))
+        if kind == 0 and data is BAD_INDEX and ptype in (5, 6) and new_calls:
+            return Fail('hostile:undecodable-input-reached-handler:placeholder-index', repr(new_calls))
         if undecodable and part.get('strict_undecodable'):
             pass
         after = bystander_view(w, by)
@@ -331,10 +336,10 @@ def flow_parts(tier):
 
 CHECKS = [
     dict(name='msgpack-frames', fn=h_msgpack, parts=[{'async': a, 'stranger': st} for a in (False, True) for st in (False, True)],
-         budget={'quick': 60, 'thorough': 120}),
-    dict(name='bystanders', fn=h_flow, parts=flow_parts, budget={'quick': 80, 'thorough': 900}, per_path_s=20),
+         budget={'quick': 180, 'thorough': 120}),
+    dict(name='bystanders', fn=h_flow, parts=flow_parts, budget={'quick': 180, 'thorough': 900}, per_path_s=20),
     dict(name='decoder-domain', engine='bsx', run=_run, replay=_replay, parts=decode_parts,
-         budget={'quick': 80, 'thorough': 900}),
+         budget={'quick': 180, 'thorough': 900}),
 ]
 
 META = dict(
